@@ -774,6 +774,10 @@ class AntiWindup(Limiter):
         The current implementation reallocates memory for `self.x_set` in each call.
         Consider improving for speed. (TODO)
         """
+        # a disabled limiter keeps zi = 1 and zl = zu = 0, like the other limiter classes
+        if not self.enable:
+            return
+
         if not self.no_upper:
             upper_v = -self.upper.v if self.sign_upper.v == -1 else self.upper.v
 
